@@ -533,8 +533,12 @@ VERBATIM_PLUS = [
 
 def c03_verbatim(ctx):
     src = "package a\n\nimport \"os\"\n\nfunc f() {\n\tusage(os.Stdout)\n\tif usage(os.Stderr) {\n\t}\n}\n"
-    for k, e in enumerate(VERBATIM_PLUS):
+    for k, e in enumerate(VERBATIM_PLUS + [v + "\x00nonl" for v in VERBATIM_PLUS[:3]] + ["g(mvw).Field\x00nonl", "mvw.TimeoutMillis\x00nonl", "cap(mvw) + 10\x00nonl"]):
+        nonl = e.endswith("\x00nonl")
+        e = e[:-5] if nonl else e
         patch = "@@\nvar mvw expression\n@@\n-usage(mvw)\n" + "".join("+" + l + "\n" for l in e.split("\n"))
+        if nonl:
+            patch = patch[:-1]      # the last line of the patch file is not terminated: its last byte is a byte of the '+' pattern
         want = src.replace("usage(os.Stdout)", e.replace("mvw", "os.Stdout")).replace("usage(os.Stderr)", e.replace("mvw", "os.Stderr"))
         root = ctx.scratch("verb")
         cl.write_tree(root, {"a.go": src, "p.patch": patch})
